@@ -4,6 +4,7 @@ CONSTANTS
   DEV_PartialIntersection = FALSE
   DEV_PartialNetwork = FALSE
   DEV_AddNetOnNonEmpty = FALSE
+  DEV_HangingFreesNamedIds = FALSE
   MaxGen = 1
   Universe = {"NA","NB","NC","OS","OD","XB"}
 VIEW View
